@@ -279,6 +279,27 @@ FIXED_TEXTS = ["# Scones for 4\n\nRub in {50} g.\n\n    200 g flour\n    50 g bu
                "Intro {1}\n\n# Late title for 2\n\n    1 x\n\n# Another\n"]
 
 
+FENCE_CASE_DOC = ("# T\n\n```Recipe\nnot a recipe (\n```\n\n```recipe\na = 1 egg\n```\n\n~~~New-Recipe\nalso not (\n~~~\n\n```recipe\nfry(a)\n```\n\n"
+                  "```Python\nx = {1}\n```\n\n~~~RECIPE\n((\n~~~\n")
+
+
+def check_fence_case():
+    """only the tags 'recipe' and 'new-recipe', as written, mark recipe blocks; any other tag (other letter case too) is ordinary code and keeps its tag"""
+    out = []
+    try:
+        mr = M.compile_markdown(FENCE_CASE_DOC)
+    except Exception as e:  # noqa
+        return [("C13:valid-document-rejected", "fenced blocks tagged Recipe / New-Recipe / RECIPE are ordinary code: %s" % type(e).__name__)]
+    html = mr.render(1)
+    if [len(g) for g in mr.recipes] != [2]:
+        out.append(("C13:wrong-blocks-treated-as-recipes", "groups %r, expected one recipe of two blocks" % ([len(g) for g in mr.recipes],)))
+    for tag in ("Recipe", "New-Recipe", "Python", "RECIPE"):
+        if 'class="language-%s"' % tag not in html:
+            out.append(("C13:differs-from-plain-commonmark", "code block tagged %s does not keep its tag: %r" % (tag, re.findall(r'class="language-[^"]*"', html))))
+            break
+    return out
+
+
 def check_fixed_text(text):
     """no placeholder residue, no dependence on the random generator, the first plain top-level heading (only) is the title"""
     out = []
@@ -304,6 +325,9 @@ def check_fixed_text(text):
 
 
 def oracle(run):
+    run.case(("fence-case",), True, kind="fence-tag-case")
+    for sig, detail in check_fence_case():
+        run.violate(sig, detail, {"fence_case": True})
     for text in FIXED_TEXTS:
         run.case(("fixed-text", text), True, kind="fixed-text")
         for sig, detail in check_fixed_text(text):
@@ -324,6 +348,11 @@ def oracle(run):
 
 def replay(run, obj):
     r = obj["replay"]
+    if r.get("fence_case"):
+        res = check_fence_case()
+        for x in res:
+            print(*x)
+        return bool(res)
     if "fixed_text" in r:
         res = check_fixed_text(r["fixed_text"])
         for x in res:
